@@ -113,30 +113,30 @@ theorem u32be_length (n : Nat) : (u32be n).length = 4 := rfl
 theorem sshString_length (s : Bytes) : (sshString s).length = 4 + s.length := by
   simp [sshString, u32be_length]
 
-theorem readU32_u32be {c : Cursor} {pre rest : Bytes} {n : Nat} (hn : n < 4294967296)
-    (hs : c.s = pre ++ (u32be n ++ rest)) (hp : c.pos = pre.length) :
-    c.readU32 = .ok (n, ⟨c.s, c.pos + 4⟩) := by
+theorem readU32_u32be (buf : Bytes) (p : Nat) {pre rest : Bytes} {n : Nat} (hn : n < 4294967296)
+    (hs : buf = pre ++ (u32be n ++ rest)) (hp : p = pre.length) :
+    (Cursor.mk buf p).readU32 = .ok (n, ⟨buf, p + 4⟩) := by
   unfold Cursor.readU32
-  have hlen : c.pos + 4 ≤ c.s.length := by
+  have hlen : p + 4 ≤ buf.length := by
     rw [hs, hp]; simp [u32be_length] <;> omega
-  have h1 : c.pos ≤ c.s.length := by omega
-  have hdrop : c.s.drop c.pos = u32be n ++ rest := by
+  have h1 : p ≤ buf.length := by omega
+  have hdrop : buf.drop p = u32be n ++ rest := by
     rw [hs, hp]; simp
   simp [hlen, sliceFrom, h1, hdrop, beU32_u32be n hn]
 
 /-- `read_string` positioned at an `extend_ssh_string(s)` reads `s` and advances past it. -/
-theorem readString_sshString {c : Cursor} {pre rest s : Bytes} (hn : s.length < 4294967296)
-    (hs : c.s = pre ++ (sshString s ++ rest)) (hp : c.pos = pre.length) :
-    c.readString = .ok (s, ⟨c.s, c.pos + 4 + s.length⟩) := by
+theorem readString_sshString (buf : Bytes) (p : Nat) {pre rest s : Bytes} (hn : s.length < 4294967296)
+    (hs : buf = pre ++ (sshString s ++ rest)) (hp : p = pre.length) :
+    (Cursor.mk buf p).readString = .ok (s, ⟨buf, p + 4 + s.length⟩) := by
   unfold Cursor.readString
-  have hs' : c.s = pre ++ (u32be s.length ++ (s ++ rest)) := by
+  have hs' : buf = pre ++ (u32be s.length ++ (s ++ rest)) := by
     rw [hs]; simp [sshString]
-  rw [readU32_u32be hn hs' hp]
-  have hlen : c.pos + 4 + s.length ≤ c.s.length := by
+  rw [readU32_u32be buf p hn hs' hp]
+  have hlen : p + 4 + s.length ≤ buf.length := by
     rw [hs', hp]; simp [u32be_length] <;> omega
-  have h1 : ¬ (c.pos + 4 + s.length < c.pos + 4) := by omega
-  have h2 : ¬ (c.s.length < c.pos + 4 + s.length) := by omega
-  have hdrop : c.s.drop (c.pos + 4) = s ++ rest := by
+  have h1 : ¬ (p + 4 + s.length < p + 4) := by omega
+  have h2 : ¬ (buf.length < p + 4 + s.length) := by omega
+  have hdrop : buf.drop (p + 4) = s ++ rest := by
     rw [hs', hp]
     have : pre.length + 4 = (pre ++ u32be s.length).length := by simp [u32be_length]
     rw [this, ← List.append_assoc, List.drop_left]
